@@ -16,7 +16,7 @@ AllClasses ==
   \cup Tagged("lis", ListenerClasses) \cup Tagged("dia", DialerClasses) \cup Tagged("pb", PbPlan)
   \cup Tagged("kadpid", KadPeerIdClasses) \cup Tagged("bsblk", BsBlockClasses)
   \cup Tagged("rt_kad", KadValues) \cup Tagged("rt_bitswap", BitswapValues)
-  \cup Tagged("rt_mss", MssValues) \cup Tagged("rt_identify", IdentifyValues)
+  \cup Tagged("rt_mss", MssValues) \cup Tagged("rt_mss_sweep", MssSweepValues) \cup Tagged("rt_identify", IdentifyValues)
 
 Expected(x) ==
   CASE x.kind = "rps" -> RpsVerdict(x.c)
@@ -68,6 +68,7 @@ Emit ==
   IF phase' = "ld_eof"
     THEN PrintT(<<"B", ToJson([kind |-> "ld", toks |-> hist, lens |-> LdLens(s), final |-> LdFinal(s)])>>)
   ELSE IF phase' = "cls"
-    THEN PrintT(<<"B", ToJson([kind |-> cls'.kind, c |-> cls'.c, exp |-> Expected(cls')])>>)
+    THEN PrintT(<<"B", ToJson([kind |-> cls'.kind, c |-> cls'.c, exp |-> Expected(cls'),
+                               aux |-> IF cls'.kind = "rt_mss_sweep" THEN MssSweepAux(cls'.c) ELSE [enclen |-> 0, fits |-> TRUE]])>>)
   ELSE TRUE
 =============================================================================
